@@ -15,7 +15,7 @@ INT_FORMS = [1, 2, 3, 4, 21, 22, 24, 31, 34, 39, 41, 44, 49, 53, 55, 10, 11, 90,
 STR_CODE_FORMS = ['1;31', '31;1', '38;5;214', '38;2;1;2;3', '48;5;21', '4;58;5;9', '1', '22', '0;1', ';', ';;', 'bold;', ';31', '1;;4', '73;italic', '38;7;red']
 FN_FORMS = ['rgb(1,2,3)', 'bg_rgb(0x10, 0x20, 0x30)', 'ul_rgb(0xFF00FF)', 'dul_color256(7)', 'fg_colour256(0x10)',
             'rgb([300,2,3])', 'color256(255)']
-VERBATIM_WF = ['[1;31', '[38;5;214', '[99', '[1', '[31', '[34', '[0']          # well-formed groups (99: unknown code)
+VERBATIM_WF = ['[1;31', '[38;5;214', '[99', '[1', '[31', '[34', '[0', '[01', '[022', '[038;5;4', '[0031']   # well-formed groups (99: unknown code; leading zeros: a terminal reads decimal numbers)
 VERBATIM_ODD = ['[38;5', '[38;2;1', '[m31', '[ 1', '[+1', '[1;', '[;', '[38;5;256', '[1~', '[4;31@', '[1?']     # ~ and @: both ends of the final-byte range
 MEMBERS = ['BOLD', 'FAINT', 'ITALIC', 'RED', 'BLUE', 'BG_RED', 'UNDERLINE', 'DOUBLE_UNDERLINE', 'NO_BOLD_FAINT',
            'FG_ORANGE', 'UL_RED', 'DUL_GRAY', 'BG_INDIAN_RED', 'FG_DEFAULT', 'GREEN']
